@@ -24,7 +24,12 @@ THEOREMS_NOTE = ("C15_roundtrip / C15_shape fix the identity of a well-formed pa
                  "C15_strategies_* fix the root that the inference returns")
 TRUSTED = ["pathlib.Path on a POSIX file system without symbolic links inside the generated trees; the scratch directory prefix is "
            "resolved with os.path.realpath and stripped from the observed paths"]
-ASSUMPTIONS = ["Path.resolve is modelled as 'make absolute': no symbolic links, no '..' components, case-sensitive file system",
+ASSUMPTIONS = ["Path.resolve is modelled as 'make absolute': no symbolic links, no '..' components, case-sensitive file system; "
+               "designations spelled through a symbolic link to a directory followed by '..' (with a decoy file at the lexically "
+               "collapsed place) are therefore not evaluated by the model: they are run on the implementation, put into the strict "
+               "group of the canonical designations of the same files (which ARE compared with the model) and must give the same answer",
+               "every generated file declares one field whose name identifies the file; the runner checks that the fields of a "
+               "returned type are those of the file its source_file_path names",
                "file contents are fixed valid texts ('@sealed', or a sealed request and response); short names and port-IDs are unique "
                "per tree so that the cross-definition rules of C11 and the collapse of equal composites (open finding F5b) do not interfere"]
 EXPLANATION = ("the theorems cover every path / designation; the correspondence compares identities or rejection classes of read_files "
@@ -39,8 +44,10 @@ LEVEL_NOTE = ("Partial: Path.resolve (symbolic links, '..'), case-insensitive fi
 TECHNIQUE = "Coq proof over an executable path model + vm_compute correspondence on on-disk trees"
 COQC_TIMEOUT = 1200
 
-SVC_TEXT = "@sealed\n---\n@sealed\n"
-MSG_TEXT = "@sealed\n"
+def file_text(idx, svc):
+    """every file declares one field whose name identifies the file: the content that was parsed is observable"""
+    return "uint8 m%d\n@sealed\n" % idx + ("---\n@sealed\n" if svc else "")
+
 
 # ----------------------------------------------------------------------------------------------------------------
 # tree utilities
@@ -55,6 +62,9 @@ def all_dirs(case):
     for d in case.get("dirs", []):
         for k in range(1, len(d) + 1):
             ds.add(tuple(d[:k]))
+    for link, _ in case.get("links", []):      # a symbolic link to a directory exists and is a directory
+        for k in range(1, len(link) + 1):
+            ds.add(tuple(link[:k]))
     return sorted(ds)
 
 
@@ -286,6 +296,48 @@ def walk_up_hazard(cwd, tlist, rlist, intended_roots, files):
     return False
 
 
+def add_link_calls(rng, case, gkey, pairs, roots_inv, dirs, k=0):
+    """Spellings through a symbolic link to a directory followed by '..' (for the operating system: the parent of the
+    link's TARGET, not of the link).  link = lnk<k>/out -> A/bld<k> where A is an ancestor of the root, so that
+    lnk<k>/out/../<rest> is A/<rest>; a decoy with the same name stands at the lexically collapsed place lnk<k>/<rest>.
+    These calls are outside the model (no symbolic links, no '..' there): they join the strict group of the canonical
+    designations of the same files and must give the same answer."""
+    fp, r = pairs[0]
+    j = rng.randrange(0, len(r))
+    anc = r[:j]
+    lnk = ["lnk%d" % k]
+    bld = anc + ["bld%d" % k]
+    svc = [f["svc"] for f in case["files"] if f["p"] == fp][0]
+    decoy = lnk + fp[j:]
+    if any(f["p"] == decoy for f in case["files"]):
+        return
+    case["files"].append({"p": decoy, "svc": svc})
+    case.setdefault("dirs", []).append(bld)
+    case.setdefault("links", []).append([lnk + ["out"], bld])
+
+    def via(path):
+        return lnk + ["out", ".."] + path[j:]
+
+    others_t = [[True, p] for p, _ in pairs[1:]]
+    canon_roots = [[True, x] for x in roots_inv]
+    mine = [p for p, rr in pairs if rr == r]
+    nm = r[-1]
+    calls = []
+    calls.append(("target", rng.choice([[], lnk]), [[True, via(fp)]] + others_t, canon_roots))
+    calls.append(("root", rng.choice([[], lnk]), [[True, fp]] + others_t, [[True, via(r)]] + [[True, x] for x in roots_inv if x != r]))
+    calls.append(("both", [], [[True, via(fp)]] + others_t, [[True, via(r)]] + [[True, x] for x in roots_inv if x != r]))
+    calls.append(("relative", lnk, [[False, via(fp)[1:]]] + others_t, canon_roots))
+    if all(p[:-1].count(nm) == 1 for p in mine) and ([nm] == r or [nm] not in dirs) and nm not in ("out", lnk[0]):
+        calls.append(("bare", [], [[True, via(fp)]] + others_t, [[False, [nm]]] + [[True, x] for x in roots_inv if x != r]))
+    rng.shuffle(calls)
+    for kind, cwd, tl, rl in calls[:rng.choice([2, 3, 4])]:
+        tl, rl = list(tl), list(rl)
+        rng.shuffle(tl)
+        rng.shuffle(rl)
+        case["calls"].append({"api": "files", "cwd": cwd, "targets": tl, "roots": rl, "lookups": [], "gkey": gkey,
+                              "iroots": roots_inv, "nocoq": True, "link": kind})
+
+
 def gen_case(rng, tier):
     t = Tree(rng)
     nroots = rng.choice([1, 1, 2, 2, 3])
@@ -354,6 +406,7 @@ def gen_case(rng, tier):
         return out
 
     # ---- groups: the same files under the same roots, designated in every consistent way
+    group_infos = []
     ngroups = rng.choice([1, 1, 2])
     for gi in range(ngroups):
         nf = rng.choice([1, 1, 1, 2, 3])
@@ -426,6 +479,8 @@ def gen_case(rng, tier):
                 gk = None      # compared with the model only
             case["calls"].append({"api": "files", "cwd": cwd, "targets": tlist, "roots": rlist, "lookups": [], "gkey": gk,
                                   "iroots": roots_inv})
+        if gkey is not None:
+            group_infos.append((gkey, pairs, roots_inv))
         # strategy 1: no roots at all, cwd = the directory that contains the roots, targets begin with the root's name
         if len({tuple(r[:-1]) for r in roots_inv}) == 1 and rng.random() < 0.7:
             cwd = roots_inv[0][:-1]
@@ -482,6 +537,11 @@ def gen_case(rng, tier):
     if rng.random() < 0.3:
         d = rng.choice([x for x in dirs if x] or [["w"]])
         case["calls"].append({"api": "ns", "cwd": rng.choice(dirs), "root": [True, d], "lookups": [], "gkey": None})
+    # ---- spellings through a symbolic link followed by '..' (added last: the decoy never becomes a random target)
+    if group_infos and rng.random() < 0.35:
+        gkey, pairs, roots_inv = rng.choice(group_infos)
+        if any(c.get("gkey") == gkey for c in case["calls"]):
+            add_link_calls(rng, case, gkey, pairs, roots_inv, dirs)
     return case
 
 
@@ -629,6 +689,25 @@ def corpus():
         fcall([], [[False, Br]], [[False, ["uavcan"]], [False, ["acme"]]], gkey="shadow", iroots=ir),
         fcall([], [[True, Br], [True, Nd]], [[False, ["uavcan"]], [False, ["acme"]]], gkey="shadow2", iroots=ir),
         fcall([], [[True, Nd], [True, Br]], [[False, ["acme"]], [False, ["uavcan"]]], gkey="shadow2", iroots=ir)]))
+    # a symbolic link to a directory followed by '..': the operating system goes to the parent of the link's TARGET
+    # (seeded C15-r3-3: lexical normalisation reads the stale copy at the collapsed place)
+    real = ["store", "proj", "types", "ns", "sub", "7100.Thing.1.0.dsdl"]
+    stale = ["work", "types", "ns", "sub", "7100.Thing.1.0.dsdl"]
+    via = ["work", "out", "..", "types", "ns", "sub", "7100.Thing.1.0.dsdl"]
+    ir = [real[:4]]
+    lc = simple_case([(real, False), (stale, False)], [
+        fcall([], [[True, real]], [[False, ["ns"]]], gkey="link", iroots=ir),
+        fcall([], [[True, real]], [[True, real[:4]]], gkey="link", iroots=ir),
+        fcall(["store", "proj"], [[False, real[2:]]], [[False, ["types", "ns"]]], gkey="link", iroots=ir),
+        dict(fcall([], [[True, via]], [[False, ["ns"]]], gkey="link", iroots=ir), nocoq=True, link="bare"),
+        dict(fcall([], [[True, via]], [[True, real[:4]]], gkey="link", iroots=ir), nocoq=True, link="target"),
+        dict(fcall([], [[True, real]], [[True, via[:5]]], gkey="link", iroots=ir), nocoq=True, link="root"),
+        dict(fcall([], [[True, via]], [[True, via[:5]]], gkey="link", iroots=ir), nocoq=True, link="both"),
+        dict(fcall(["work"], [[False, via[1:]]], [[True, real[:4]]], gkey="link", iroots=ir), nocoq=True, link="relative"),
+        dict(fcall(["work"], [[False, via[1:]]], [[False, via[1:5]]], gkey="link", iroots=ir), nocoq=True, link="relative"),
+        ncall([], [True, real[:4]])], dirs=[["store", "proj", "build"]])
+    lc["links"] = [[["work", "out"], ["store", "proj", "build"]]]
+    out.append(lc)
     # services: the port range and the name length are those of services
     out.append(simple_case([(["ns", "511.S.1.0.dsdl"], True), (["ns", "512.Q.1.0.dsdl"], True)], [
         fcall([], [[False, ["ns", "511.S.1.0.dsdl"]]], []), fcall([], [[False, ["ns", "512.Q.1.0.dsdl"]]], []), ncall([], [False, ["ns"]])]))
@@ -733,11 +812,16 @@ def run_impl(cases):
     for case in cases:
         base = tempfile.mkdtemp(prefix="c15_", dir=scratch)
         try:
+            links = {tuple(l) for l, _ in case.get("links", [])}
             for d in all_dirs(case):
-                os.makedirs(os.path.join(base, *d), exist_ok=True)
-            for f in case["files"]:
+                if d not in links:
+                    os.makedirs(os.path.join(base, *d), exist_ok=True)
+            for l, tgt in case.get("links", []):
+                os.symlink(os.path.join(base, *tgt), os.path.join(base, *l), target_is_directory=True)
+            for idx, f in enumerate(case["files"]):
                 with open(os.path.join(base, *f["p"]), "w") as fh:
-                    fh.write(SVC_TEXT if f["svc"] else MSG_TEXT)
+                    fh.write(file_text(idx, f["svc"]))
+            mark = {"/".join(f["p"]): ["m%d" % idx] for idx, f in enumerate(case["files"])}
             obs = []
             for c in case["calls"]:
                 def d2s(p):
@@ -751,8 +835,9 @@ def run_impl(cases):
                         direct = pydsdl.read_namespace(d2s(c["root"]), [d2s(p) for p in c["lookups"]] or None,
                                                        allow_unregulated_fixed_port_id=True)
                     ids = sorted([[t.full_name, int(t.version.major), int(t.version.minor), t.fixed_port_id,
-                                   rel(t.source_file_path, base), rel(t.source_file_path_to_root, base)] for t in direct],
-                                 key=lambda x: (x[4], x[0]))
+                                   rel(t.source_file_path, base), rel(t.source_file_path_to_root, base),
+                                   [f.name for f in (t.request_type if isinstance(t, pydsdl.ServiceType) else t).fields]]
+                                  for t in direct], key=lambda x: (x[4], x[0]))
                     obs.append({"r": "ok", "ids": ids})
                 except Exception as ex:  # pylint: disable=broad-except
                     obs.append({"r": classify(ex)})
@@ -760,6 +845,10 @@ def run_impl(cases):
                     os.chdir(home)
             o = {"calls": obs}
             pf = predicate(case, obs, skip=lambda c: False)
+            for ob in obs:       # the content that was parsed is the content of the file that source_file_path names
+                for i in ob.get("ids", []):
+                    if mark.get("/".join(i[4])) != i[6]:
+                        pf = pf or "source_file_path %r does not name the file whose text was parsed (fields %r)" % (i[4], i[6])
             if pf:
                 o["pred_fail"] = pf
             out.append(o)
@@ -795,6 +884,8 @@ def emit(case, obs):
     dirs = G.lst([e_comps(list(d)) for d in all_dirs(case)])
     calls = []
     for c, ob in zip(case["calls"], obs["calls"]):
+        if c.get("nocoq"):
+            continue     # spelled through a symbolic link and '..': outside the model, tied to it by the strict group
         if c["api"] == "files":
             ce = "(C15.CFiles %s %s %s %s)" % (e_comps(c["cwd"]), e_paths(c["targets"]), e_paths(c["roots"]), e_paths(c["lookups"]))
         else:
@@ -836,6 +927,8 @@ def describe(case, obs):
                 keys.append("cwd:changed")
             if c.get("gkey"):
                 keys.append("group-call")
+            if c.get("link"):
+                keys.append("symlink-dotdot-spelling:" + c["link"])
     if "pred_fail" in obs:
         keys.append("pred-fail")
     return keys
